@@ -89,6 +89,10 @@ func c18Judge(text, setter string) (string, string) {
 		switch setter {
 		case "SetBody":
 			err = m.SetBody(text)
+		case "SetBody-after-SetBody": // the message already had another, longer body
+			if err = m.SetBody("an earlier body of this message, longer than most of the texts\r\nsecond line é\r\n"); err == nil {
+				err = m.SetBody(text)
+			}
 		default:
 			err = m.SetBodyWithCharset(strings.TrimPrefix(setter, "SetBodyWithCharset:"), text)
 		}
@@ -259,7 +263,7 @@ func C18(args []string) {
 		}
 	}
 	rec(nil, 0)
-	setters := []string{"SetBody", "SetBodyWithCharset:utf-8", "SetBodyWithCharset:ISO-8859-1"}
+	setters := []string{"SetBody", "SetBodyWithCharset:utf-8", "SetBodyWithCharset:ISO-8859-1", "SetBody-after-SetBody"}
 	core.ParallelFor(len(seqs), func(i int) {
 		text, names := build(seqs[i])
 		for si, st := range setters {
